@@ -342,17 +342,19 @@ section
 variable {R : Type} [Add R] [Sub R] [Mul R] [Div R] [Neg R] [Lit R] [LT R] [LE R] [DecidableLT R]
   [DecidableLE R] [DecidableEq R]
 
-/-- **one step of the second walk** -/
-theorem walk2_step {fn : Fn R} {start : Edge} {old new k : Nat} {F N : Nat → Nat} {c0 c : Cell R} {j fuel : Nat}
+/-- **one step of the second walk**, with the edges appended to the two lists -/
+theorem walk2_step' {fn : Fn R} {start : Edge} {old new k : Nat} {F N : Nat → Nat} {c0 c : Cell R} {j fuel : Nat}
     (H : Walk2Hyp (slots c0) start old new k F N)
     (hW : WalkState old new F N (Q2 old new k F N (SideK (slots c0))) c0 c j) (hj : j < k)
     {del cre : List Edge} {r : Cell R × List Edge × List Edge}
     (h : replaceNode.loop fn start old new (fuel + 1) c (EdgeSet.find? c.edges (Edge.keyOf old (N j))) (F j) del cre
       = .ok r) :
-    (j + 1 = k ∧ WalkState old new F N (Q2 old new k F N (SideK (slots c0))) c0 r.1 k) ∨
-    (j + 1 < k ∧ ∃ c2 del' cre', WalkState old new F N (Q2 old new k F N (SideK (slots c0))) c0 c2 (j + 1) ∧
+    ∃ e stored, e.key = Edge.keyOf old (N j) ∧ CreOK new N (Q2 old new k F N (SideK (slots c0))) j stored ∧
+    ((j + 1 = k ∧ WalkState old new F N (Q2 old new k F N (SideK (slots c0))) c0 r.1 k ∧
+        r.2 = (del ++ [e], cre ++ [stored])) ∨
+    (j + 1 < k ∧ ∃ c2, WalkState old new F N (Q2 old new k F N (SideK (slots c0))) c0 c2 (j + 1) ∧
       replaceNode.loop fn start old new fuel c2 (EdgeSet.find? c2.edges (Edge.keyOf old (N (j + 1)))) (F (j + 1))
-        del' cre' = .ok r) := by
+        (del ++ [e]) (cre ++ [stored]) = .ok r)) := by
   have hfan := H.fan
   have hon := H.hon
   have hk3 := H.k3
@@ -391,7 +393,8 @@ theorem walk2_step {fn : Fn R} {start : Edge} {old new k : Nat} {F N : Nat → N
         (j = 0 → ∃ ne, EdgeSet.find? (EdgeSet.erase s2 e.key) (Edge.keyOf new (N 0)) = some ne ∧
           ne.f1 = e.f1 ∧ ne.f2 = e.f2) ∧
         (0 < j → EdgeSet.find? (EdgeSet.erase s2 e.key) (Edge.keyOf new (N 0)) =
-          EdgeSet.find? c.edges (Edge.keyOf new (N 0))) := by
+          EdgeSet.find? c.edges (Edge.keyOf new (N 0))) ∧
+        EdgeSet.find? (EdgeSet.erase s2 e.key) (Edge.keyOf new (N j)) = some stored := by
       have hk0e : 0 < j → Edge.keyOf new (N 0) ≠ e.key := by
         intro _; rw [ek]; exact hfan.KK' hon (by omega)
       have hk0n : 0 < j → Edge.keyOf new (N 0) ≠ Edge.keyOf new (N j) := by
@@ -419,7 +422,7 @@ theorem walk2_step {fn : Fn R} {start : Edge} {old new k : Nat} {F N : Nat → N
               if q = (renEdge e old new).key then some (renEdge e old new) else EdgeSet.find? c.edges q := by
           intro q hq
           rw [EdgeSet.find?_erase, if_neg hq, RI.find, mst]
-        refine ⟨mI.congr (fun g q => ?_), rn12, ?_, ?_⟩
+        refine ⟨mI.congr (fun g q => ?_), rn12, ?_, ?_, ?_⟩
         · rw [ek, rk, Pj_succ hfan hon _ _ hj g q]
           by_cases hq : q = Edge.keyOf new (N j)
           · rw [if_pos hq, if_pos hq, Pj_at_old hfan hon _ _ hj (Nat.le_refl _), H.Q2_move hj hcase]
@@ -429,6 +432,7 @@ theorem walk2_step {fn : Fn R} {start : Edge} {old new k : Nat} {F N : Nat → N
           exact ⟨renEdge e old new, by rw [hfind _ (by rw [← rk]; exact hkk), if_pos rk.symm], rf1, rf2⟩
         · intro h0
           rw [hfind _ (hk0e h0), if_neg (by rw [rk]; exact hk0n h0)]
+        · rw [hfind _ (by rw [← rk]; exact hkk), if_pos rk.symm]
       · -- the renamed edge exists: merge
         have hjm : j = 1 ∨ j + 1 = k := by omega
         have hj1 : 1 ≤ j := by omega
@@ -453,7 +457,8 @@ theorem walk2_step {fn : Fn R} {start : Edge} {old new k : Nat} {F N : Nat → N
         obtain ⟨_, _, ms, mI⟩ := merge_idx hW.idx hecur hkk (by rw [rk]; exact hst) hsn1 hsn2 mw
         rw [ms] at hs2
         subst hs2
-        refine ⟨mI.congr (fun g q => ?_), ?_, fun h0 => by omega, ?_⟩
+        have hsk' : stored.key = Edge.keyOf new (N j) := (Edge.key_congr hsn1 hsn2).trans sk
+        refine ⟨mI.congr (fun g q => ?_), ?_, fun h0 => by omega, ?_, ?_⟩
         · rw [ek, rk, Pj_succ hfan hon _ _ hj g q]
           by_cases hq : q = Edge.keyOf new (N j)
           · rw [if_pos hq, if_pos hq, mh g]
@@ -465,7 +470,9 @@ theorem walk2_step {fn : Fn R} {start : Edge} {old new k : Nat} {F N : Nat → N
         · intro h0
           have hsk : stored.key = Edge.keyOf new (N j) := (Edge.key_congr hsn1 hsn2).trans sk
           rw [EdgeSet.find?_erase, if_neg (hk0e h0), EdgeSet.find?_update, if_neg (by rw [hsk]; exact hk0n h0)]
-    obtain ⟨kI, kn, kf0, kf1⟩ := key
+        · rw [EdgeSet.find?_erase, if_neg (by rw [← rk]; exact hkk), EdgeSet.find?_update, if_pos hsk'.symm, hst]
+          rfl
+    obtain ⟨kI, kn, kf0, kf1, kst⟩ := key
     -- the state after the step
     obtain ⟨c2, hc2⟩ : ∃ c2 : Cell R, c2 = ({ stepFaces fn c (F (j + 1)) f old new with
         edges := EdgeSet.erase s2 e.key } : Cell R) := ⟨_, rfl⟩
@@ -501,6 +508,10 @@ theorem walk2_step {fn : Fn R} {start : Edge} {old new k : Nat} {F N : Nat → N
     have hs' : (slots (stepFaces fn c (F (j + 1)) f old new))[F (j + 1)]? =
         some (some (renT old new (f.n1, f.n2, f.n3))) := by rw [sS]; exact List.getElem?_set_self hlt
     obtain ⟨hu', hft'⟩ := face_of_slot hf' hs'
+    have hcre : CreOK new N (Q2 old new k F N (SideK (slots c0))) j stored := by
+      obtain ⟨a1, a2, a3, a4⟩ := hW2.idx.of_find (by rw [hE2]; exact kst)
+      exact ⟨a1, a2, a3, fun g => (a4 g).trans (Pj_just hfan hon _ _ hj g)⟩
+    refine ⟨e, stored, ek, hcre, ?_⟩
     by_cases hlast : j + 1 = k
     · left
       refine ⟨hlast, ?_⟩
@@ -518,7 +529,7 @@ theorem walk2_step {fn : Fn R} {start : Edge} {old new k : Nat} {F N : Nat → N
       · rw [hr]
         have hW2' := hW2
         rw [hlast] at hW2'
-        exact hW2'
+        exact ⟨hW2', rfl⟩
       · cases ho'
     · right
       have hj1 : j + 1 < k := by omega
@@ -563,7 +574,42 @@ theorem walk2_step {fn : Fn R} {start : Edge} {old new k : Nat} {F N : Nat → N
       rcases hrest with ⟨hx, _⟩ | ⟨nxt, hx, hl⟩
       · cases hx
       · cases hx
-        exact ⟨c2, _, _, hW2, by rw [hed]; exact hl⟩
+        exact ⟨c2, hW2, by rw [hed]; exact hl⟩
+
+theorem walk2_step {fn : Fn R} {start : Edge} {old new k : Nat} {F N : Nat → Nat} {c0 c : Cell R} {j fuel : Nat}
+    (H : Walk2Hyp (slots c0) start old new k F N)
+    (hW : WalkState old new F N (Q2 old new k F N (SideK (slots c0))) c0 c j) (hj : j < k)
+    {del cre : List Edge} {r : Cell R × List Edge × List Edge}
+    (h : replaceNode.loop fn start old new (fuel + 1) c (EdgeSet.find? c.edges (Edge.keyOf old (N j))) (F j) del cre
+      = .ok r) :
+    (j + 1 = k ∧ WalkState old new F N (Q2 old new k F N (SideK (slots c0))) c0 r.1 k) ∨
+    (j + 1 < k ∧ ∃ c2 del' cre', WalkState old new F N (Q2 old new k F N (SideK (slots c0))) c0 c2 (j + 1) ∧
+      replaceNode.loop fn start old new fuel c2 (EdgeSet.find? c2.edges (Edge.keyOf old (N (j + 1)))) (F (j + 1))
+        del' cre' = .ok r) := by
+  obtain ⟨e, stored, _, _, h1 | h2⟩ := walk2_step' H hW hj h
+  · exact Or.inl ⟨h1.1, h1.2.1⟩
+  · obtain ⟨hj1, c2, hW2, hl⟩ := h2
+    exact Or.inr ⟨hj1, c2, _, _, hW2, hl⟩
+
+/-- **the second walk**, with the two edge lists -/
+theorem walk2' {fn : Fn R} {start : Edge} {old new k : Nat} {F N : Nat → Nat} {c0 : Cell R}
+    (H : Walk2Hyp (slots c0) start old new k F N) :
+    ∀ (fuel j : Nat) (c : Cell R) (del cre : List Edge) (r : Cell R × List Edge × List Edge),
+      WalkState old new F N (Q2 old new k F N (SideK (slots c0))) c0 c j → j < k →
+      replaceNode.loop fn start old new fuel c (EdgeSet.find? c.edges (Edge.keyOf old (N j))) (F j) del cre = .ok r →
+      WalkState old new F N (Q2 old new k F N (SideK (slots c0))) c0 r.1 k ∧
+      WalkLists old new k N (Q2 old new k F N (SideK (slots c0))) j del cre r.2.1 r.2.2 := by
+  intro fuel
+  induction fuel with
+  | zero => intro j c del cre r _ _ h; unfold replaceNode.loop at h; cases h
+  | succ fuel ih =>
+    intro j c del cre r hW hj h
+    obtain ⟨e, stored, he, hs, ⟨hl, hr, hr2⟩ | ⟨hj1, c2, hW2, h2⟩⟩ := walk2_step' H hW hj h
+    · refine ⟨hr, ?_⟩
+      rw [hr2]
+      exact WalkLists.last he hs hl
+    · obtain ⟨a, b⟩ := ih (j + 1) c2 _ _ r hW2 hj1 h2
+      exact ⟨a, WalkLists.step he hs hj b⟩
 
 /-- **the second walk** -/
 theorem walk2 {fn : Fn R} {start : Edge} {old new k : Nat} {F N : Nat → Nat} {c0 : Cell R}
@@ -571,15 +617,8 @@ theorem walk2 {fn : Fn R} {start : Edge} {old new k : Nat} {F N : Nat → Nat} {
     ∀ (fuel j : Nat) (c : Cell R) (del cre : List Edge) (r : Cell R × List Edge × List Edge),
       WalkState old new F N (Q2 old new k F N (SideK (slots c0))) c0 c j → j < k →
       replaceNode.loop fn start old new fuel c (EdgeSet.find? c.edges (Edge.keyOf old (N j))) (F j) del cre = .ok r →
-      WalkState old new F N (Q2 old new k F N (SideK (slots c0))) c0 r.1 k := by
-  intro fuel
-  induction fuel with
-  | zero => intro j c del cre r _ _ h; unfold replaceNode.loop at h; cases h
-  | succ fuel ih =>
-    intro j c del cre r hW hj h
-    rcases walk2_step H hW hj h with ⟨_, hr⟩ | ⟨hj1, c2, del', cre', hW2, h2⟩
-    · exact hr
-    · exact ih (j + 1) c2 del' cre' r hW2 hj1 h2
+      WalkState old new F N (Q2 old new k F N (SideK (slots c0))) c0 r.1 k :=
+  fun fuel j c del cre r hW hj h => (walk2' H fuel j c del cre r hW hj h).1
 
 end
 
